@@ -25,4 +25,4 @@ def guard_obligations(which):
 
 def extra_checks(tier="quick", seed=0):
     from contracts.props.readers_bounded import run
-    return [r for r in run(tier, seed) if "Sonar" in r["id"] or "DefectDojo" in r["id"]] + guard_obligations("res")
+    return [r for r in run(tier, seed) if "Sonar" in r["id"] or "DefectDojo" in r["id"] or "accumulator" in r["id"]] + guard_obligations("res")
